@@ -59,7 +59,13 @@ def run(ctx):
                 'melt/unpack. Real vs model (exact) and the inverse identities on the real code. Non-trivial: >= 2 data rows.')
     ctx.assumptions += ['re (regex results are passed to the model), sorted() on field names / pivot values of one type',
                         'dict cells are coded as sequences of (key, value) pairs']
-    ctx.prove(['PetlProofs.Props.C14', 'PetlProofs.RecastMelt'], REQUIRED)
+    from translators import fingerprints as _fp
+    try:
+        _fpi = _fp.generate()
+        ctx.bridge('translator: fingerprints of the petl functions the hand-written models mirror (%d bodies)' % _fpi['names'], True)
+    except Exception as e:   # noqa
+        ctx.bridge('translator: source fingerprints extracted', False, repr(e))
+    ctx.prove(['PetlProofs.Props.C14', 'PetlProofs.RecastMelt', 'PetlProofs.Snapshot.C14'], REQUIRED + ['Petl.Snapshot.C14_sources_as_validated'])
     rng = ctx.rng
     n = 1200 if ctx.thorough() else 200
     jobs = []
